@@ -356,6 +356,12 @@ pub struct RingMachine {
     max_reuse: u8,
     /// keep replaying an intent for this many epochs after its expiry epoch
     post_expiry: u64,
+    /// quick tier: stop a history as soon as *one* of two stored transactions is past its replay window.
+    /// What remains is the other transaction alone, at some phase of the ring, with less budget left — a
+    /// state whose futures are a subset of those explored from the item "that transaction as first commit
+    /// at that phase" (resp. the same item without the second commit), provided records of expired intents
+    /// do not influence how other intents are handled. The thorough tier does not use this reduction.
+    prune_when_one_dead: bool,
 }
 
 fn commit_alphabets(quick: bool) -> (Vec<Op>, Vec<Op>) {
@@ -465,6 +471,7 @@ impl RingMachine {
             max_commits: 2,
             max_reuse: if quick { 1 } else { 2 },
             post_expiry: if quick { 0 } else { 1 },
+            prune_when_one_dead: quick,
         }
     }
 
@@ -567,7 +574,11 @@ impl Machine for RingMachine {
     }
 
     fn terminal(&self, st: &St) -> bool {
-        !st.slots.is_empty() && st.slots.iter().all(|s| !self.slot_alive(st, s))
+        if st.slots.is_empty() {
+            return false;
+        }
+        let dead = st.slots.iter().filter(|s| !self.slot_alive(st, s)).count();
+        dead == st.slots.len() || (self.prune_when_one_dead && dead > 0)
     }
 
     fn ops(&self, st: &St, _depth: usize) -> Vec<Op> {
@@ -842,6 +853,7 @@ fn layer2(ctx: &Ctx) -> (BfsStats, Value) {
         "first_commit_alphabet": m.first_commits.iter().map(op_code).collect::<Vec<_>>(),
         "later_commit_alphabet": m.later_commits.iter().map(op_code).collect::<Vec<_>>(),
         "max_commits": m.max_commits, "max_subintent_reuse_commits": m.max_reuse, "replays_after_expiry_epochs": m.post_expiry,
+        "stop_when_one_of_two_transactions_is_past_its_window": m.prune_when_one_dead,
         "work_items": n_items,
     });
     (stats, detail)
@@ -1127,6 +1139,7 @@ pub fn run(ctx: Ctx) -> ! {
     cov.insert("wall_s_by_layer".into(), json!([t1, t2 - t1, t3 - t2]));
     let _ = l1_evals;
     let exhaustive = !stats.capped;
+    let quick_tier = ctx.quick();
     ctx.finish(
         Level::ModelChecking,
         "layer 1: every (start partition, number of advances ≤ 1–2 revolutions, expiry offset in and ±250 around the covered range) on the real tracker methods with production constants, plus all small rings (N ≤ 5, epochs/partition ≤ 3); \
@@ -1136,6 +1149,7 @@ pub fn run(ctx: Ctx) -> ! {
         exhaustive,
         cov,
         &[
+            if quick_tier { "quick tier: a history stops once one of two stored transactions is past its replay window (subsumed by the single-transaction histories if records of expired intents do not influence other intents); the thorough tier explores those tails" } else { "thorough tier: no subsumption reduction" },
             "layer 2 runs on a test database whose tracker substate was rewritten to a 4 x 2 ring and validates with max_epoch_range = 6; the engine code is unmodified",
             "epochs advance by one per round-change transaction (C44), so the ring is never more than one block behind",
             "panics escaping the engine while processing a validated transaction or an epoch change are reported as violations (the operation is defined and must end in a commit or a rejection)",
